@@ -40,6 +40,8 @@ pub struct Profile {
     pub read_burst: u32,
     /// reuse the names of dropped tables, create unique indexes on existing tables
     pub ddl_rich: bool,
+    /// weight of hostile free-text statements (C16)
+    pub w_chaos: u32,
     pub guards: Vec<String>,
 }
 
@@ -70,6 +72,7 @@ impl Profile {
             big_text: false,
             read_burst: 0,
             ddl_rich: false,
+            w_chaos: 0,
             guards: default_guards(),
         }
     }
@@ -701,7 +704,7 @@ impl Gen {
         self.emit(Event::Auto(Stmt::Insert { table: "t0".into(), rows }));
 
         let n_events = self.rng.range(self.p.min_events as u64, self.p.max_events as u64) as usize;
-        let total_w = self.p.w_session + self.p.w_auto + self.p.w_batch + self.p.w_check + self.p.w_flush + self.p.w_reopen + self.p.w_vacuum + self.p.w_ddl + self.p.w_failing;
+        let total_w = self.p.w_session + self.p.w_auto + self.p.w_batch + self.p.w_check + self.p.w_flush + self.p.w_reopen + self.p.w_vacuum + self.p.w_ddl + self.p.w_failing + self.p.w_chaos;
         let mut guard = 0;
         let burst_at = if self.p.read_burst > 0 { self.rng.below(n_events as u64) as usize } else { usize::MAX };
         let mut burst_done = false;
@@ -901,6 +904,37 @@ impl Gen {
                                 }
                             }
                         }
+                    }
+                }
+            } else if take!(self.p.w_chaos) {
+                // hostile text at any point of any session, or autocommit, followed by a state check
+                let probe = self.model.begin();
+                let world = crate::chaos::World {
+                    tables: self
+                        .visible_tables(probe)
+                        .iter()
+                        .map(|ti| {
+                            let t = &self.model.tables[*ti];
+                            (t.name.clone(), t.cols.iter().map(|c| (c.name.clone(), c.ty == Ty::Text)).collect())
+                        })
+                        .collect(),
+                };
+                self.model.abort(probe);
+                let sql = crate::chaos::chaos_sql(&mut self.rng, &world, &self.p.guards);
+                let open: Vec<u32> = self.sess.keys().copied().collect();
+                if !open.is_empty() && self.rng.chance(60) {
+                    let k = *self.rng.pick(&open);
+                    self.emit(Event::Exec(k, Stmt::Raw(sql)));
+                    if self.rng.chance(50) {
+                        let tx = self.sess[&k];
+                        if let Some(r) = self.gen_read(tx) {
+                            self.emit(Event::Exec(k, r));
+                        }
+                    }
+                } else {
+                    self.emit(Event::Auto(Stmt::Raw(sql)));
+                    if self.rng.chance(30) {
+                        self.emit(Event::Check);
                     }
                 }
             } else if take!(self.p.w_failing) {
